@@ -1021,6 +1021,8 @@ func streamExpand(t *testing.T, o *Out) {
 	n := envInt("VERIF_N", 300)
 	e := newExpEnv(t)
 	id := 0
+	// one state in wideEvery has more than a page of children below one node
+	wideEvery := envInt("VERIF_EXPAND_WIDE_EVERY", 25)
 	// corpus first: the storage order of the line is forced (rows are rewritten until
 	// the engine sees that order)
 	for _, l := range corpusLines("expand") {
@@ -1051,7 +1053,7 @@ func streamExpand(t *testing.T, o *Out) {
 	for emitted := 0; emitted < n; {
 		var ts []Tup
 		var s Sub
-		wide := r.Intn(25) == 0
+		wide := r.Intn(wideEvery) == 0
 		if wide {
 			ts, s = genWide(r)
 			o.Count("shape:wide")
